@@ -289,26 +289,98 @@ func c08pollFinal(c *Ctx, a *alphAnchors) {
 	btV, _ := constant.Int64Val(bt.Val())
 	R.Check("C08.poll-final", "C08.poll-final/MinimalConsistencyLevel", "", "MinimalConsistencyLevel is the property's 205 and the block interval constant is positive", minV == 205 && btV > 0, fmt.Sprintf("MinimalConsistencyLevel=%d BlockTimeMs=%d", minV, btV))
 	nret := 0
+	// every way the duration can be produced: a return of `L * BlockTimeMs` where L is the level,
+	// the floored level, or a variable (phi) that is one of the two depending on the branch taken
+	type alt struct {
+		val  ssa.Value
+		blk  *ssa.BasicBlock // block the alternative comes from
+		edge int             // successor index of blk leading to the merge (-1: the return's own block)
+		pos  ssa.Instruction
+	}
+	var alts []alt
+	bad := ""
 	eachInstr(a.getConfDur, func(i ssa.Instruction) {
 		r, ok := i.(*ssa.Return)
 		if !ok {
 			return
 		}
-		nret++
-		fs := facts.Atoms(acceptFacts(r))
-		t := facts.Term(r.Results[0])
-		mainnetTransfer := len(fs) == 2 && fs[0] == "isMainnet" && fs[1] == "isTransferTokenVAA"
-		want := fmt.Sprintf("(eventConsistencyLevel * %d)", btV)
-		if mainnetTransfer {
-			want = fmt.Sprintf("(N/alephium.maxUint8(eventConsistencyLevel,%d) * %d)", minV, btV)
+		mul, ok := strip(r.Results[0]).(*ssa.BinOp)
+		if !ok || mul.Op != token.MUL {
+			bad = "returns " + facts.Term(r.Results[0])
+			return
 		}
-		R.Check("C08.poll-final", R.Key("C08.poll-final", "getConfirmationDuration", "return"), c.rel(p.Pos(instrPos(r))), "confirmation duration under facts "+strings.Join(fs, ",")+" is "+want, t == want && (mainnetTransfer || len(fs) == 0 || true), "returns "+t)
-		if !mainnetTransfer {
-			// the non-floored branch must be reachable only when NOT (mainnet && transfer)
-			es, _ := edgesWhere(a.getConfDur, func(at string) bool { return at == "!isMainnet" || at == "!isTransferTokenVAA" })
-			R.Check("C08.poll-final", R.Key("C08.poll-final", "getConfirmationDuration", "unfloored-branch"), c.rel(p.Pos(instrPos(r))), "the un-floored duration is used only when not (mainnet and token transfer)", len(es) >= 2 && facts.PassesAny(r.Block(), nil, es...), "branch structure")
+		L, K := mul.X, mul.Y
+		if _, isK := constInt(L); isK {
+			L, K = K, L
 		}
+		if k, isK := constInt(K); !isK || k != btV {
+			bad = "returns " + facts.Term(r.Results[0])
+			return
+		}
+		L = strip(L)
+		if cv, isCv := L.(*ssa.Convert); isCv {
+			L = strip(cv.X)
+		}
+		if ph, isPhi := L.(*ssa.Phi); isPhi {
+			for k, e := range ph.Edges {
+				pred := ph.Block().Preds[k]
+				ei := 0
+				for j, sc := range pred.Succs {
+					if sc == ph.Block() {
+						ei = j
+					}
+				}
+				alts = append(alts, alt{strip(e), pred, ei, r})
+			}
+			return
+		}
+		alts = append(alts, alt{L, r.Block(), -1, r})
 	})
+	if bad != "" {
+		R.Fail("C08.poll-final", "C08.poll-final/getConfirmationDuration/shape", c.rel(p.Pos(a.getConfDur.Pos())), "confirmation duration is <level or floored level> * BlockTimeMs", "undecided: "+bad)
+	}
+	es, _ := edgesWhere(a.getConfDur, func(at string) bool { return at == "!isMainnet" || at == "!isTransferTokenVAA" })
+	for _, al := range alts {
+		nret++
+		t := facts.Term(al.val)
+		var fs []string
+		if al.edge >= 0 {
+			fs = facts.Atoms(facts.AtEdge(al.blk, al.edge, nil))
+		} else {
+			fs = facts.Atoms(facts.At(al.pos, nil))
+		}
+		has := func(x string) bool {
+			for _, f := range fs {
+				if f == x {
+					return true
+				}
+			}
+			return false
+		}
+		switch t {
+		case fmt.Sprintf("N/alephium.maxUint8(eventConsistencyLevel,%d)", minV):
+			R.Check("C08.poll-final", R.Key("C08.poll-final", "getConfirmationDuration", "return"), c.rel(p.Pos(instrPos(al.pos))), "the floored duration (max(level, MinimalConsistencyLevel) blocks) is what mainnet token transfers get", has("isMainnet") && has("isTransferTokenVAA"), "floored value used under facts "+strings.Join(fs, ","))
+		case "eventConsistencyLevel":
+			R.Check("C08.poll-final", R.Key("C08.poll-final", "getConfirmationDuration", "return"), c.rel(p.Pos(instrPos(al.pos))), "confirmation duration is level * BlockTimeMs", true, "")
+			cutOK := len(es) >= 2
+			if cutOK {
+				if al.edge >= 0 {
+					isCut := false
+					for _, e := range es {
+						if e.B == al.blk.Index && e.K == al.edge {
+							isCut = true
+						}
+					}
+					cutOK = isCut || facts.PassesAny(al.blk, nil, es...)
+				} else {
+					cutOK = facts.PassesAny(al.blk, nil, es...)
+				}
+			}
+			R.Check("C08.poll-final", R.Key("C08.poll-final", "getConfirmationDuration", "unfloored-branch"), c.rel(p.Pos(instrPos(al.pos))), "the un-floored duration is used only when not (mainnet and token transfer)", cutOK, "branch structure")
+		default:
+			R.Check("C08.poll-final", R.Key("C08.poll-final", "getConfirmationDuration", "return"), c.rel(p.Pos(instrPos(al.pos))), "confirmation duration is <level or floored level> * BlockTimeMs", false, "level term "+t)
+		}
+	}
 	R.Floor("C08.poll-final.duration-returns", nret, 2)
 	mx := must(p.Func(pkgAlph, "maxUint8"), "maxUint8")
 	okmx := true
